@@ -12,7 +12,7 @@ from streamflow.data.remotepath import LocalStreamFlowPath, RemoteStreamFlowPath
 from sfv.framework import Ctx, Property
 from sfv.rt.hexs import hx, unhx
 from sfv.rt.sfctx import make_context
-from sfv.rt.shfake import Hang, MiniConnector, run_watchdog
+from sfv.rt.shfake import in_scratch_cwd, Hang, MiniConnector, run_watchdog
 from sfv.rt.trees import NAME_CORPUS, diff, make_tree, rand_name, snapshot
 from sfv.translate import cmdtmpl
 
@@ -383,6 +383,7 @@ class C24(Property):
         self.expect.append((name, real, len(variants), {"op": name, "path": full, "args": {k: str(v)[:40] for k, v in a.items()}}))
 
     # ------------------------------------------------------------------------------------------------------------
+    @in_scratch_cwd
     def explore(self, ctx: Ctx) -> None:
         from sfv.rt.shfake import limit_failures
         limit_failures(ctx)
@@ -420,6 +421,7 @@ class C24(Property):
                     ctx.disagree("FS model of mkdir (local API / remote command)", f"real {e!r}, Lean model {g!r}", sample)
         ctx.extra["templates"] = {r["lean"]: ("quoted" if r["quoted"] else "NOT-quoted") for r in self.table if r["via"] != "env"}
 
+    @in_scratch_cwd
     def replay(self, ctx: Ctx, data) -> None:
         self._setup(ctx)
         r = data.get("replay") or {}
